@@ -269,6 +269,7 @@ pub struct Flags {
     pub max_out: usize,
     pub c05_checks: u32,
     pub c05_event_windows: u32,
+    pub followed_capacity_deviation: bool,
 }
 
 pub struct Eng {
@@ -285,6 +286,7 @@ pub struct Eng {
     ring_model: Vec<u16>,
     avail_idx: u16,
     last_sn_idx: u16,
+    follow_capacity: bool,
     desc_owner: Vec<Option<u16>>,
     adds: u64,
     pops: u64,
@@ -306,7 +308,7 @@ fn pat(seed: u64, i: usize) -> u8 {
 }
 
 impl Eng {
-    pub fn new(cfg: &QCfg, observe: bool) -> R<Eng> {
+    pub fn new(cfg: &QCfg, observe: bool, follow_capacity: bool) -> R<Eng> {
         world::reset();
         let n = 1usize << cfg.log2;
         with(|w| {
@@ -366,6 +368,7 @@ impl Eng {
             adds: 0,
             pops: 0,
             last_sn_idx: 0,
+            follow_capacity,
             dev_flags: 0,
             shadow,
             flags: Flags {
@@ -381,6 +384,7 @@ impl Eng {
                 wrapped: false,
                 pipelined_rounds: 0,
                 c05_event_windows: 0,
+                followed_capacity_deviation: false,
                 max_out: 0,
                 c05_checks: 0,
             },
@@ -429,7 +433,7 @@ impl Eng {
                 self.n
             }
         } else {
-            self.n - self.held
+            self.n.saturating_sub(self.held)
         }
     }
 
@@ -526,6 +530,15 @@ impl Eng {
                 self.substrate_faults()?;
                 self.check_answers()?;
                 return Ok(false);
+            }
+            _ if self.follow_capacity => {
+                // Not the C03 run: whether the submission should have been refused is C03's
+                // business. Follow what the implementation did, so that this property's own
+                // oracles still judge the submission it accepted.
+                self.flags.followed_capacity_deviation = true;
+                if res.is_err() {
+                    return Ok(false);
+                }
             }
             _ => {
                 return Err(v(
@@ -747,6 +760,7 @@ impl Eng {
                 let _ = w.hal.poke(self.rq.desc, &garbage);
                 let _ = w.hal.poke(self.rq.avail, &garbage[..2]);
                 let _ = w.hal.poke(self.rq.avail + 4, &garbage[..2 * n]);
+                self.rq.scribble_avail_idx(&w.hal);
             });
             for (i, x) in self.ring_model.iter_mut().enumerate() {
                 *x = u16::from_le_bytes([garbage[2 * i], garbage[2 * i + 1]]);
@@ -1025,7 +1039,7 @@ impl Eng {
                 self.add(ins, outs)?;
             }
             Op::AddFill { extra, wr } => {
-                let base = if self.cfg.indirect { self.n as i64 } else { (self.n - self.held) as i64 };
+                let base = if self.cfg.indirect { self.n as i64 } else { self.n.saturating_sub(self.held) as i64 };
                 let nb = (base + *extra as i64).max(0) as usize;
                 if nb > 40000 {
                     return Ok(());
@@ -1124,7 +1138,7 @@ impl Eng {
     /// End-of-history checks: behavioural free count, drain, ledger balance, teardown.
     pub fn finish(&mut self) -> R {
         if self.n <= 1024 {
-            let free_before = self.n - self.held;
+            let free_before = self.n.saturating_sub(self.held);
             let mut cnt = 0;
             loop {
                 let was = self.held;
@@ -1207,7 +1221,7 @@ pub struct Outcome {
 pub fn run_case(c: &QCase, prop: &'static str, st: &mut Stats) -> Result<(), String> {
     let observe = prop == "C02";
     let res = (|| -> R<Eng> {
-        let mut e = Eng::new(&c.cfg, observe)?;
+        let mut e = Eng::new(&c.cfg, observe, prop != "C03")?;
         for op in &c.ops {
             e.step(op)?;
         }
